@@ -43,18 +43,29 @@ int main() {
         fs::remove_all(root);
         fs::create_directories(root);
         auto pathOf = [&](int64_t n) { return root + "/f" + std::to_string(n); };
-        File theFile;                 // one File object for the whole case: re-opened with open()
-        File *dyn = nullptr;          // a File constructed with (path, mode); closed explicitly or by its destructor
-        File *f = nullptr;            // the open File (&theFile or dyn)
-        int64_t curName = -1;
-        int curMode = 0;
-        bool sequential = true;
-        std::string before, written;
+        // two File users side by side (operation 33 switches between them): File objects are independent of one another
+        struct Slot {
+            File theFile;                 // one File object for the whole case: re-opened with open()
+            File *dyn = nullptr;          // a File constructed with (path, mode); closed explicitly or by its destructor
+            File *f = nullptr;            // the open File (&theFile or dyn)
+            int64_t curName = -1;
+            int curMode = 0;
+            bool sequential = true;
+            std::string before, written;
+        } slots[2];
+        int act = 0;
         for (size_t li = 1; li < c.lines.size(); ++li) {
             const Line &l = c.lines[li];
             Line out;
             bool ok = !l.empty();
+            Slot &S = slots[act], &O = slots[1 - act];
+            File &theFile = S.theFile; File *&dyn = S.dyn; File *&f = S.f;
+            int64_t &curName = S.curName; int &curMode = S.curMode; bool &sequential = S.sequential;
+            std::string &before = S.before, &written = S.written;
+            // one stream per file at a time: an operation that names the file the other user has open is not issued
+            if (ok && (l[0] == 1 || l[0] == 31) && l.size() >= 2 && O.f && O.curName == l[1]) { emit({PRE}); continue; }
             if (ok) switch (l[0]) {
+            case 33: if (l.size() != 1) { ok = false; break; } act = 1 - act; out.push_back(0); break;
             case 30:
                 if (l.size() != 2 || fs::exists(pathOf(l[1]))) { ok = false; break; }
                 fs::create_directory(pathOf(l[1])); out.push_back(1); break;
@@ -183,14 +194,16 @@ int main() {
             }
             if (!ok) emit({PRE}); else emit(out);
         }
-        if (f && f != dyn) f->close();
-        delete dyn;
-        f = dyn = nullptr;
+        for (auto &S : slots) {
+            if (S.f && S.f != S.dyn) S.f->close();
+            delete S.dyn;
+            S.f = S.dyn = nullptr;
+        }
         fs::remove_all(root);
         {
             size_t fdsNow = 0;
             for (auto &e : fs::directory_iterator("/proc/self/fd")) { (void) e; ++fdsNow; }
-            if (fdsNow > fds0 && !theFile.isOpen())
+            if (fdsNow > fds0 && !slots[0].theFile.isOpen() && !slots[1].theFile.isOpen())
                 oracle_fail("C17: " + std::to_string(fdsNow - fds0) + " file descriptor(s) are still open although every File was closed or destroyed");
         }
     }, 60, 32);
